@@ -81,9 +81,10 @@ def rms_pipeline(ctx, replay=None):
                       "replay", "Trace_Rms", 4000, comp_of=_rms_comp)
     stim = os.path.join(ctx.work, "rms_stim.ndjson")
     out = ctx.mc("MC_Rms", "MC_Rms_%s.cfg" % tier, workers=4, env={"STIM_OUT": stim})
-    _need_actions(out, "MC_Rms", ["StepNext", "StepNextSq", "StepSig", "StepSigSq", "StepCurrent", "StepReset"])
+    _need_actions(out, "MC_Rms", ["StepNext", "StepNextSq", "StepSig", "StepSigSq", "StepCurrent", "StepReset", "StepClone"])
     ctx.exhaustive = True
-    ctx.extra["mc_constants"] = {"MaxWin": 3 if tier == "quick" else 4, "inputs": "k/4, k in -2..2", "channels": 1}
+    ctx.extra["mc_constants"] = {"MaxWin": 3 if tier == "quick" else 4, "inputs": "k/4, k in -2..2", "channels": 1,
+                                 "CloneFuel": "2 steps over both instances after a clone (inputs -1/4, 2/4)"}
     rnd = os.path.join(ctx.work, "rms_rand.ndjson")
     ctx.harness(hx_std, ["gen", str(ctx.seed), tier, rnd, "rms"])
     runs = [(hx_std, stim, "rms"), (hx_std, rnd, "rms"), (hx_ns, stim, "rms_nostd"), (hx_ns, rnd, "rms_nostd")]
@@ -101,9 +102,9 @@ def env_pipeline(ctx, replay=None):
         return _judge(ctx, [(hx, replay, "envelope")], "replay", "Trace_Envelope", 4000)
     stim = os.path.join(ctx.work, "env_stim.ndjson")
     out = ctx.mc("MC_Envelope", "MC_Envelope_%s.cfg" % tier, workers=4, env={"STIM_OUT": stim})
-    _need_actions(out, "MC_Envelope", ["StepIn", "StepSetA", "StepSetR"])
+    _need_actions(out, "MC_Envelope", ["StepIn", "StepSetA", "StepSetR", "StepClone"])
     ctx.exhaustive = True
-    ctx.extra["mc_constants"] = {"MaxLen": 3 if tier == "quick" else 4, "StimLen": 2 if tier == "quick" else 3,
+    ctx.extra["mc_constants"] = {"MaxLen": 3 if tier == "quick" else 4, "StimLen": 2 if tier == "quick" else 3, "CloneLen": 3,
                                  "gains": "0, 1/2, 3/4", "inputs": "k/4, k in -2..2, three rectifiers"}
     rnd = os.path.join(ctx.work, "env_rand.ndjson")
     ctx.harness(hx, ["gen", str(ctx.seed), tier, rnd, "env"])
@@ -130,6 +131,10 @@ def c11(ctx, replay):
         "frames for N up to 64, 1-4 channels, formats f32 f64 i8 i16 i32 u16, full-precision and exact-domain values",
         "the floating point bound is rigorous for running-sum (either order, with or without the clamp) and for "
         "recomputing implementations, not for arbitrary ones (DESIGN section 9)",
+        "clones: the detector (and the adaptor, over a queue-fed source) is cloned after every number 0..2N+1 of frames "
+        "(TLC stimuli) and at random positions (up to 3 instances); every instance is then continued on its own and judged "
+        "against its own history; moves through a Box and into_parts of the adaptor leave the state alone",
+        "ring storages handed to Rms::new: Vec, Box<[T]>, &mut [T] (not cloneable) and [T; n] for n <= 4; the adaptor over Vec / Box",
         "no_std: dasp_sample, dasp_frame, dasp_ring_buffer, dasp_rms built with default-features = false "
         "(harness_nostd); the signal adaptor is exercised in the std build only (dasp_signal's no_std build needs nightly)",
     ]
@@ -146,7 +151,13 @@ def c19(ctx, replay):
         "difference, outside the domain in which the recurrence's exact result is what the code computes)",
         "gain = exp(-1/frames) is pinned by g^n * e = 1 within (n+2)*2^-22 against a verified rational enclosure of e "
         "for frames in {1/4, 1/2, 1, 2, 5, 64}; other time constants are not exercised",
-        "model checking uses rational stand-in gains 0, 1/2, 3/4 and histories up to 3 (quick) / 4 (thorough) operations",
+        "model checking uses rational stand-in gains 0, 1/2, 3/4 and histories up to 3 (quick) / 4 (thorough) operations "
+        "(up to 3 when they contain a clone; at most one clone per history)",
+        "clones: Detector::clone / DetectEnvelope::clone at every position of two-frame runs (TLC stimuli) and at random positions "
+        "(up to 3 instances); both copies are continued with different frames and setters and each is judged against its own "
+        "history; adaptors are cloned over a queue-fed source signal only (a cloned from_iter source would replay the original's frames)",
+        "constructor entry points Detector::peak* / ::rms, Detector::new(Peak::*() / Peak::from(rectifier) / Rms::new(..)), "
+        "::peak_from_rectifier; RMS detection over Vec and Box<[T]> ring storage; rectifiers as free functions and as Rectifier impls",
         "a zero time is handed over as +0.0 or as IEEE -0.0 (flags nza/nzr/nz); both are the time 0 to the model",
         "adaptor runs over a finite source read past its end (cfg.srclen): the later inputs are the equilibrium frames "
         "such a signal yields (that it does is C04/C05's matter); the recurrence is required to keep running on them",
